@@ -25,6 +25,8 @@
 #include "icinga/icingaapplication.hpp"
 #include "notification/notificationcomponent.hpp"
 #include "remote/apilistener.hpp"
+#include "remote/endpoint.hpp"
+#include "remote/zone.hpp"
 
 using namespace icinga;
 
@@ -44,6 +46,22 @@ static std::vector<std::string> n_Ev;          // synchronous events of the curr
 static std::mutex n_CmdMutex;
 static std::vector<std::string> n_Cmd;         // (type:user) per executed command, any order
 static long n_CmdCalls = 0;
+static NotificationComponent::Ptr n_Comp;      // never started: its handlers are called directly / through the signal
+static ApiListener::Ptr n_Listener;            // never started, PKI-less; only visible while an op runs with ha=1
+static bool n_Ha = false;
+static bool n_InReq = false;                    // only requests scripted by nf_req are routed (AddDowntime etc. fire the signal too)
+static std::string n_Rq = "-";                 // type seen on Checkable::OnNotificationsRequested in the current op
+
+// local endpoint && enable_ha: make the (never started) ApiListener and its local endpoint visible for one op
+struct NfHaScope {
+	NfHaScope() {
+		if (!n_Ha) return;
+		n_Listener->m_LocalEndpoint = Endpoint::GetByName("vnf-ep");
+		n_Listener->SetIdentity("vnf-ep");
+		ApiListener::m_Instance = n_Listener;
+	}
+	~NfHaScope() { if (n_Ha) ApiListener::m_Instance = nullptr; }
+};
 
 static long UserId(const String& name)
 {
@@ -68,6 +86,17 @@ static void InitOnce()
 	n_Init = true;
 	LoadConfig("object CheckCommand \"vnfdummy\" { command = [ \"/bin/true\" ] }\n"
 		"object NotificationCommand \"vnfcmd\" { command = [ \"/bin/true\" ] }\n");
+	LoadConfig("object Endpoint \"vnf-ep\" { }\nobject Zone \"vnf-zone\" { endpoints = [ \"vnf-ep\" ] }\n");
+	n_Listener = new ApiListener();
+	n_Comp = new NotificationComponent();
+	n_Comp->SetEnableHA(true);
+	// what NotificationComponent::Start() connects: the request signal fires BEFORE SendNotifications' own gates
+	Checkable::OnNotificationsRequested.connect([](const Checkable::Ptr& checkable, NotificationType type, const CheckResult::Ptr& cr,
+		const String& author, const String& text, const MessageOrigin::Ptr&) {
+		if (!(n_InReq && n_Ck && checkable == n_Ck)) return;
+		n_Rq = std::to_string((int)type);
+		n_Comp->SendNotificationsHandler(checkable, type, cr, author, text);
+	});
 	NotificationCommand::Ptr nc = NotificationCommand::GetByName("vnfcmd");
 	nc->SetExecute(new Function("<vnf>", []() {
 		std::unique_lock<std::mutex> lock(n_CmdMutex);
@@ -243,6 +272,7 @@ VOP(nf_ctx)
 	n_Ck->SetFlapping(a.num("flap", 0) != 0);
 	n_Ck->SetSuppressedNotifications(a.num("cks", 0) ? (int)NotificationProblem : 0);
 	n_Nf->SetAuthority(a.num("paused", 0) == 0);
+	n_Ha = a.num("ha", 0) != 0;
 	ApiListener::m_UpdatedObjectAuthority.store(a.num("auth", 1) != 0);
 	SetPeriod(n_Tp, a.num("per", 0) == 0);
 	{
@@ -320,16 +350,24 @@ static std::string NfLine()
 VOP(nf_req)
 {
 	n_Ev.clear();
+	n_Rq = "-";
 	n_Ck->SetForceNextNotification(a.num("force", 0) != 0);
-	n_Ck->SendNotifications((NotificationType)a.num("type", 32), n_Ck->GetLastCheckResult(), "vd", "t");
-	Out("nf_req " + NfLine());
+	{
+		NfHaScope ha;
+		n_InReq = true;
+		Checkable::OnNotificationsRequested(n_Ck, (NotificationType)a.num("type", 32), n_Ck->GetLastCheckResult(), "vd", "t", nullptr);
+		n_InReq = false;
+	}
+	Out("nf_req rq=" + n_Rq + " " + NfLine());
 }
 
 VOP(nf_tick)
 {
-	static NotificationComponent::Ptr comp = new NotificationComponent();
 	n_Ev.clear();
-	comp->NotificationTimerHandler();
+	{
+		NfHaScope ha;
+		n_Comp->NotificationTimerHandler();
+	}
 	Out("nf_tick " + NfLine());
 }
 
@@ -340,6 +378,8 @@ static struct NfCaseEnd {
 			DrainThreadPool();
 			IcingaApplication::GetInstance()->SetEnableNotifications(true);
 			ApiListener::m_UpdatedObjectAuthority.store(true);
+			ApiListener::m_Instance = nullptr;
+			n_Ha = false;
 			Checkable::Ptr ck = n_Ck;
 			n_Ck = nullptr;
 			if (!n_DtName.IsEmpty()) { try { Downtime::RemoveDowntime(n_DtName, false, DowntimeRemovedByConfigOwner, ""); } catch (...) {} n_DtName = ""; }
